@@ -167,7 +167,7 @@ def concerns (connTopic : String) (t : MTopic) : Bool := t.error != 0 && (connTo
 
 def convPartition (bm : List (Int × UBroker)) (t : MTopic) (p : MPartition) : UPartition :=
   { topic := t.name, id := p.index, leader := brokerOrPlaceholder bm p.leader
-    replicas := makeBrokers bm p.replicas, isr := makeBrokers bm p.isr, error := 0 }
+    replicas := makeBrokers bm p.replicas, isr := makeBrokers bm p.isr, error := p.error }
 
 /-- conn.go readTopicMetadatav1/v6: a topic error is reported (and ends the call) only for the connection's own
 topic, or for any topic when the connection has none; `Except.error` carries the Kafka error code -/
